@@ -775,11 +775,12 @@ def mechanism_search(ctx, viol):
             warnings.simplefilter("ignore")
             want = SFT(ndim=d, a=-1, b=1, N=200, h=0.001, alt=True).transform(m.correlation, k, ret_err=False)
             got = m.spectral_density(k)
-            m2 = make(cls, d, len_scale=1.3, hankel_kw={"N": 300})
-            want2 = SFT(ndim=d, a=-1, b=1, N=300, h=0.001, alt=True).transform(m2.correlation, k, ret_err=False)
+            m2 = make(cls, d, len_scale=1.3, hankel_kw={"h": 0.01, "N": 50})
+            want2 = SFT(ndim=d, a=-1, b=1, N=50, h=0.01, alt=True).transform(m2.correlation, k, ret_err=False)
             got2 = m2.spectral_density(k)
         ev += 2 * len(k)
-        if not (np.array_equal(got, want) and np.array_equal(got2, want2)) or m2.hankel_kw != dict(cvb.HANKEL_DEFAULT, N=300):
+        if not (np.array_equal(got, want) and np.array_equal(got2, want2)) or m2.hankel_kw != dict(a=-1, b=1, N=50, h=0.01, alt=True) \
+                or m.hankel_kw != dict(a=-1, b=1, N=200, h=0.001, alt=True):
             viol.append({"key": f"hankel-settings:{cls}", "what": "default spectral_density is not hankel SFT(a=-1,b=1,N=200,"
                          "h=0.001,alt=True) of the correlation / hankel_kw not merged over the defaults",
                          "case": dict(cls=cls, dim=d)})
